@@ -11,7 +11,8 @@ ORACLES = tuple("io_bounds".split(","))
 
 
 def run(ctx):
-    _hist.run_histories(ctx, ORACLES, nprog=ctx.scale(24, 400), nops=ctx.scale(30, 80), remount_every=False)
+    _hist.run_histories(ctx, ORACLES, nprog=ctx.scale(24, 400), nops=ctx.scale(30, 80), remount_every=False,
+                        mounts=[dict(encoding="ibm437", offset=0), dict(encoding="ibm437", offset=4096, lazy_load=False), dict(encoding="cp850", offset=1536)])
 
 
 def extra_search(ctx):
